@@ -109,11 +109,21 @@ static void setReal(Ctx& c, int o, const char* name, SoPlex::RealParam p, double
 
 static std::string dvec(const VectorBase<double>& v) { return jarr(v.dim(), [&](int i) { return jq(qd(v[i])); }); }
 
-struct SolveOpts { bool limited = false; bool complete = true; };
+struct SolveOpts { bool limited = false; bool complete = true; std::string detKey; };
+static std::string paramsDigest(SoPlex& s)
+{
+   std::ostringstream o;
+   for(int i = 0; i < SoPlex::BOOLPARAM_COUNT; i++) o << (s.boolParam((SoPlex::BoolParam)i) ? 'T' : 'F');
+   for(int i = 0; i < SoPlex::INTPARAM_COUNT; i++) if(i != SoPlex::VERBOSITY) o << "," << s.intParam((SoPlex::IntParam)i);
+   for(int i = 0; i < SoPlex::REALPARAM_COUNT; i++) o << "," << qdraw(s.realParam((SoPlex::RealParam)i));
+   o << ",seed" << s.randomSeed();
+   return o.str();
+}
 static int optimize(Ctx& c, int o, SolveOpts so, volatile bool* interrupt = nullptr)
 {
    SoPlex& s = *c.objs[o];
    pending() = "optimize";
+   std::string pdig = paramsDigest(s);
    SPxSolver::Status st = s.optimize(interrupt);
    int nr = s.numRows(), nc = s.numCols();
    J r; r.i("status", (int)st).b("hasSol", s.hasSol());
@@ -141,7 +151,7 @@ static int optimize(Ctx& c, int o, SolveOpts so, volatile bool* interrupt = null
    else r.raw("brow", "[]").raw("bcol", "[]").raw("bind", "[]");
    r.i("iters", s.numIterations());
    c.modsSinceBasis[o] = 0;
-   J ev; ev.s("a", "optimize").i("o", o).b("exact", false).b("limited", so.limited).b("complete", so.complete).raw("r", r.str());
+   J ev; ev.s("a", "optimize").i("o", o).b("exact", false).b("limited", so.limited).b("complete", so.complete).s("pdig", pdig).s("detKey", so.detKey).raw("r", r.str());
    emit(c, o, ev);
    return (int)st;
 }
@@ -351,7 +361,7 @@ static bool randomModReal(Ctx& c, int o, Gen& gen, int maxDim)
 }
 
 // build in a brand-new object the LP that object o currently reports, with the same settings, and solve it
-static void freshSolve(Ctx& c, int o, bool transplantBasis = false)
+static void freshSolve(Ctx& c, int o, bool transplantBasis = false, const std::string& detKey = "", bool resolveAfterClear = false)
 {
    SoPlex& s = *c.objs[o];
    int id = c.nextId++;
@@ -362,7 +372,7 @@ static void freshSolve(Ctx& c, int o, bool transplantBasis = false)
    f.setSettings(s.settings());
    { J g; g.i("sense", f.intParam(SoPlex::OBJSENSE)).q("offset", f.realParam(SoPlex::OBJ_OFFSET)).q("ftol", f.realParam(SoPlex::FEASTOL))
         .q("otol", f.realParam(SoPlex::OPTTOL)).i("iterlimit", f.intParam(SoPlex::ITERLIMIT)).b("ensureray", f.boolParam(SoPlex::ENSURERAY))
-        .i("sync", f.intParam(SoPlex::SYNCMODE));
+        .i("sync", f.intParam(SoPlex::SYNCMODE)).q("epsz", f.realParam(SoPlex::EPSILON_ZERO));
      J ev; ev.s("a", "setSettingsFrom").i("o", id).i("src", o).raw("g", g.str()); emit(c, id, ev); }
    int nr = s.numRows(), nc = s.numCols();
    for(int j = 0; j < nc; j++)
@@ -387,7 +397,8 @@ static void freshSolve(Ctx& c, int o, bool transplantBasis = false)
       emit(c, id, ev);
       queryBasis(c, id);
    }
-   SolveOpts so; optimize(c, id, so);
+   SolveOpts so; so.detKey = detKey; optimize(c, id, so);
+   if(resolveAfterClear) { clearBasis(c, id); optimize(c, id, so); }
    c.objs.erase(id);
    { J ev; ev.s("a", "destroy").i("o", id); emit(c, id, ev); }
 }
@@ -862,6 +873,72 @@ static void wlSync(Ctx& c, int nexec, int len)
    }
 }
 
+// ---------------------------------------------------------------- C17: copies are equal and independent; solves are deterministic
+static std::string solJson(SoPlex& s)
+{
+   if(!s.hasSol()) return "\"none\"";
+   int nr = s.numRows(), nc = s.numCols(); VectorBase<double> x(nc), sl(nr), y(nr), d(nc);
+   bool a = s.getPrimal(x), b = s.getSlacksReal(sl), e = s.getDual(y), f = s.getRedCost(d);
+   J j; j.q("obj", s.objValueReal()).raw("x", a ? dvec(x) : "[]").raw("s", b ? dvec(sl) : "[]").raw("y", e ? dvec(y) : "[]").raw("d", f ? dvec(d) : "[]");
+   return j.str();
+}
+static int copyObj(Ctx& c, int src, bool assign, int into = -1)
+{
+   int id = into >= 0 ? into : c.nextId++;
+   if(assign) *c.objs[id] = *c.objs[src];
+   else c.objs[id].reset(new SoPlex(*c.objs[src]));
+   c.modsSinceBasis[id] = c.modsSinceBasis[src];
+   J ev; ev.s("a", assign ? "assign" : "copy").i("o", id).i("src", src).raw("srcSol", solJson(*c.objs[src])).raw("dstSol", solJson(*c.objs[id]));
+   emit(c, id, ev);
+   return id;
+}
+static void destroyObj(Ctx& c, int o)
+{
+   c.objs.erase(o);
+   J ev; ev.s("a", "destroy").i("o", o); emit(c, o, ev);
+}
+static void wlCopy(Ctx& c, int nexec, int len)
+{
+   for(int e = 0; e < nexec; e++)
+   {
+      T().line("{\"a\":\"Reset\"}");
+      c.objs.clear(); c.nextId = 0; c.logOthers = true;
+      Gen gen{c.rng, 0};
+      int a = createObj(c);
+      if(c.rng.coin()) fullConfig(c, a);
+      LPData L = genWitnessed(c.rng, 4, c.rng.coin(3, 4) ? "OPT" : (c.rng.coin() ? "INF" : "UNB"), 0);
+      loadLP(c, a, L, false);
+      if(c.rng.coin(2, 3)) { SolveOpts so; so.complete = false; optimize(c, a, so); }
+      if(c.rng.coin(1, 3)) { int tries = 0; while(!randomModReal(c, a, gen, 5) && ++tries < 50) {} }
+      std::vector<int> live{a};
+      for(int step = 0; step < len && !live.empty(); step++)
+      {
+         int k = c.rng.R(0, 99); int o = live[c.rng.R(0, (int)live.size() - 1)];
+         SoPlex& s = *c.objs[o]; bool solvable = s.numCols() > 0 && s.numRows() > 0;
+         if(k < 18 && live.size() < 3) live.push_back(copyObj(c, o, false));
+         else if(k < 28 && live.size() >= 2) { int t = live[c.rng.R(0, (int)live.size() - 1)]; if(t != o) copyObj(c, o, true, t); }
+         else if(k < 50) { int tries = 0; while(!randomModReal(c, o, gen, 5) && ++tries < 50) {} }
+         else if(k < 70) { if(!solvable) continue; SolveOpts so; so.complete = false; optimize(c, o, so); }
+         else if(k < 76) setReal(c, o, "EPSILON_ZERO", SoPlex::EPSILON_ZERO, c.rng.coin() ? 1e-12 : 1e-16);
+         else if(k < 82) setReal(c, o, "FEASTOL", SoPlex::FEASTOL, c.rng.coin() ? 1e-7 : 1e-6);
+         else if(k < 86) setInt(c, o, "OBJSENSE", SoPlex::OBJSENSE, c.rng.coin() ? -1 : 1);
+         else if(k < 90) queryBasis(c, o);
+         else if(k < 94) { clearBasis(c, o); if(solvable) { SolveOpts so; so.complete = false; optimize(c, o, so); } }
+         else if(live.size() >= 2) { destroyObj(c, o); live.erase(std::find(live.begin(), live.end(), o)); }
+      }
+      // determinism: a fresh twin of every survivor (same LP, same settings, same seed) must reproduce the same result
+      for(int o : live)
+      {
+         SoPlex& s = *c.objs[o]; if(s.numCols() == 0 || s.numRows() == 0) continue;
+         std::string key = "twin" + std::to_string(e) + "-" + std::to_string(o);
+         freshSolve(c, o, false, key, false);           // two fresh objects given the same LP ...
+         freshSolve(c, o, false, key, false);
+         freshSolve(c, o, false, "re" + key, true);     // ... and the same unmodified object again after clearBasis
+      }
+      c.logOthers = false;
+   }
+}
+
 // C04: every point of a history at which hasBasis() is true; set/read back; transplant into a new object
 static void wlBasis(Ctx& c, int nexec, int len)
 {
@@ -908,6 +985,7 @@ int main(int argc, char** argv)
    else if(wl == "certbig2") wlCert(c, nexec, len, 14, 0, 1);
    else if(wl == "basis") wlBasis(c, nexec, len);
    else if(wl == "sync") wlSync(c, nexec, len);
+   else if(wl == "copy") wlCopy(c, nexec, len);
    else if(wl == "certbig") wlCert(c, nexec, len, 14, 0);
    else if(wl == "certscaled") wlCert(c, nexec, len, 6, 12);
    else { fprintf(stderr, "unknown workload %s\n", wl.c_str()); return 2; }
